@@ -231,22 +231,45 @@ def check(chk):
         sn = [n for n in gpr.stmt_nodes() if n.ast is sets[0]][0]
         ok = all(fa.knows('isinstance(result, ResultMessage)') is True for fa, _ in flr.at(sn))
     chk.judge(ok, 'C20.confirm', pr, 'connection.keyspace recorded only when the server answered with a RESULT', 'the connection records the keyspace without confirmation')
-    errs = [c for c in calls_cb(pr, 'callback') if len(c.args) == 2 and src(c.args[1]) != 'None']
-    chk.judge(len(errs) >= 2, 'C20.confirm', pr, 'failure arms pass the error to the callback', 'a failure arm reports success')
-    # ... and what they pass cannot be None: the value of a call whose callee has a bare `return` path may be
-    for c_ in errs:
-        a1 = c_.args[1]
-        if isinstance(a1, ast.Name):
-            defs_ = [x.value for x in body_walk(pr) if isinstance(x, ast.Assign) and any(isinstance(t, ast.Name) and t.id == a1.id for t in x.targets)]
-            a1 = defs_[0] if len(defs_) == 1 else a1
-        if isinstance(a1, ast.Call) and isinstance(a1.func, ast.Attribute) and src(a1.func.value) == 'self' and conn.has('Connection.%s' % a1.func.attr):
-            callee = conn.func('Connection.%s' % a1.func.attr)
-            may_none = any(isinstance(r, ast.Return) and (r.value is None or (isinstance(r.value, ast.Constant) and r.value.value is None)) for r in body_walk(callee))
-            chk.judge(not may_none, 'C20.confirm', c_, 'process_result: the error handed to the callback is never None (%s)' % src(c_.args[1])[:50],
-                      'the error is the return value of self.%s(), which returns None when the connection is already defunct or closed: a USE that failed because the '
-                      'connection died is reported as success for that connection, and the switch as a whole reports no error' % a1.func.attr)
-        else:
-            chk.ok('C20.confirm', c_, 'process_result: error argument %s' % src(c_.args[1])[:50], nontrivial=False)
+    # what each call of the callback hands over, per path: the last value given to the name it passes (or the expression itself)
+    _vals = {}
+
+    def _step_cb(n, c):
+        if n.kind == 'stmt' and isinstance(n.ast, ast.Assign) and len(n.ast.targets) == 1 and isinstance(n.ast.targets[0], ast.Name):
+            _vals[id(n.ast.value)] = n.ast.value
+            d = dict(c)
+            d[n.ast.targets[0].id] = id(n.ast.value)
+            return tuple(sorted(d.items()))
+        return c
+    flc = Flow(gpr, (), _step_cb)
+    cb_nodes = [n for n in gpr.stmt_nodes() if n.kind == 'stmt' and any(isinstance(x, ast.Call) and isinstance(x.func, ast.Name) and x.func.id == 'callback' for x in walk_no_nested(n.ast))]
+    n_fail = 0
+    okarms = bool(cb_nodes)
+    why_arm = ''
+    for n in cb_nodes:
+        call = [x for x in walk_no_nested(n.ast) if isinstance(x, ast.Call) and isinstance(x.func, ast.Name) and x.func.id == 'callback'][0]
+        if len(call.args) != 2:
+            okarms, why_arm = False, 'callback called with %d arguments' % len(call.args)
+            continue
+        for fa, c in flc.at(n):
+            a1 = call.args[1]
+            if isinstance(a1, ast.Name) and a1.id in dict(c):
+                a1 = _vals[dict(c)[a1.id]]
+            is_none = isinstance(a1, ast.Constant) and a1.value is None
+            success = fa.knows('isinstance(result, ResultMessage)') is True
+            if success and not is_none:
+                okarms, why_arm = False, 'the success arm reports %s' % src(a1)[:40]
+            if not success:
+                n_fail += 1
+                if is_none:
+                    okarms, why_arm = False, 'a failure arm reports success (None)'
+                elif isinstance(a1, ast.Call) and isinstance(a1.func, ast.Attribute) and src(a1.func.value) == 'self' and conn.has('Connection.%s' % a1.func.attr):
+                    callee = conn.func('Connection.%s' % a1.func.attr)
+                    if any(isinstance(r, ast.Return) and (r.value is None or (isinstance(r.value, ast.Constant) and r.value.value is None)) for r in body_walk(callee)):
+                        okarms = False
+                        why_arm = ('the error is the return value of self.%s(), which returns None when the connection is already defunct or closed: a USE that failed because the '
+                                   'connection died is reported as success for that connection, and the switch as a whole reports no error' % a1.func.attr)
+    chk.judge(okarms and n_fail >= 2, 'C20.confirm', pr, 'process_result: None only for a RESULT answer; every other arm hands an error (never None) to the callback', why_arm or 'a failure arm reports success')
     s = src(sa)
     chk.judge('if not keyspace or keyspace == self.keyspace' in s, 'C20.confirm', sa, 'no request when the keyspace is already selected', 'shortcut changed')
     sb = conn.func('Connection.set_keyspace_blocking')
